@@ -192,6 +192,22 @@ def main(ck, tier, w):
             ck.violation('chain of %d blocks, %s --start %s --end %s: %s' % (NL, cb, s_, e_, '; '.join(probs[:3])),
                          {'blocks': NL, 'callback': cb, 'start': s_, 'end': e_, 'observed': r.brief(), 'tags': []})
 
+    # --- heights beyond 32 bits (a sparse index: only the records around H exist); no trace here, TLC's integers are 32-bit
+    for H in (2 ** 32 - 3, 2 ** 32, 2 ** 40 + 7, 2 ** 63):
+        hb = chains.std_chain(6, 'bitcoin')          # (block content independent of the heights they are indexed at)
+        hd = datadir.simple_dir(w.sub('dd'), hb, 'bitcoin', h0=H).write()
+        for s_, e_ in ((H, None), (H + 1, H + 3), (H + 2, H + 100)):
+            r = run.run_parser(hd, 'csvdump', dump=w.mk('out'), start=s_, end=e_)
+            lo, hi = s_, min(e_ if e_ is not None else H + 5, H + 5)
+            exp, _ = ref.csv_expected([(h, hb[h - H]) for h in range(lo, hi + 1)], 'bitcoin')
+            ck.evals()
+            ck.distinct(('high', H, s_ - H, e_))
+            bad = [f for f in exp if r.files.get('%s-%d-%d.csv' % (f, lo, hi)) != exp[f]]
+            if r.rc != 0 or bad or chains.processed_upto(r.stdout) != hi:
+                ck.violation('index with heights %d..%d, csvdump --start %d --end %s: exit %d, dump folder %s, "processed up to" %s; files differing from the rows of '
+                             '%d..%d: %s' % (H, H + 5, s_, e_, r.rc, r.listing, chains.processed_upto(r.stdout), lo, hi, bad),
+                             {'first_height': H, 'start': s_, 'end': e_, 'observed': r.brief(), 'tags': []})
+
     # --- T: long runs, traces validated against the specification
     rng = random.Random(run.seed() * 7919 + 2)
     jobs = []
